@@ -105,6 +105,16 @@ pub struct WorldCfg {
     pub session_present: bool,
 }
 
+#[derive(Clone, Debug, Default)]
+pub struct ResumeOpts {
+    pub secs_ago: u64,
+    pub sei: Option<u32>,
+    pub connack_sei: Option<u32>,
+    pub receive_max: Option<u16>,
+    pub max_packet: Option<u32>,
+    pub expect_expired: bool,
+}
+
 impl Default for WorldCfg {
     fn default() -> Self {
         WorldCfg {
@@ -159,6 +169,8 @@ pub struct World {
     pub max_packet: Option<u32>,
     /// number of injected inbound PUBLISH packets the context has certainly consumed (reader empty at a serving quiescent point)
     pub confirmed_inbound: usize,
+    /// quota rules switched off (resumed connection whose Receive Maximum is below the number of re-sent handshakes)
+    pub quota_fuzzy: bool,
 }
 
 #[derive(Default, Clone, Debug)]
@@ -270,6 +282,7 @@ impl World {
             undecided: Vec::new(),
             sub_ids_seen: std::collections::HashMap::new(),
             max_packet: cfg.max_packet,
+            quota_fuzzy: false,
             confirmed_inbound: 0,
         };
         if w.connack_sum.is_none() {
@@ -804,14 +817,29 @@ impl World {
 
     /// `connack_sei`: Session Expiry Interval property in the CONNACK of the new connection (overrides the requested one)
     pub fn resume_with(&mut self, secs_ago: u64, sei: Option<u32>, connack_sei: Option<u32>, expect_expired: bool) -> bool {
+        self.resume_full(ResumeOpts { secs_ago, sei, connack_sei, expect_expired, ..Default::default() })
+    }
+
+    /// The general form: the CONNACK of the new connection may announce its own Receive Maximum and Maximum Packet Size
+    /// (absent = 65535 / unlimited, whatever the previous connection had announced).
+    pub fn resume_full(&mut self, o: ResumeOpts) -> bool {
+        let ResumeOpts { secs_ago, sei, connack_sei, expect_expired, .. } = o;
         let (pubs, rels) = self.unfinished();
         self.sim.cmd(Cmd::MarkDisconnected(secs_ago));
-        self.sim.note(|| format!("hook H1: disconnected {secs_ago} s ago; session expiry interval {:?}", sei));
+        self.sim.note(|| format!("hook H1: disconnected {secs_ago} s ago; session expiry interval {:?}; new CONNACK receive maximum {:?}, maximum packet size {:?}", sei, o.receive_max, o.max_packet));
         self.sim.new_transport();
         let conn = ConnSpec { sei, client_id: Some("c".into()), ..Default::default() };
         self.sim.cmd(Cmd::Connect(conn));
         self.sim.settle();
-        let cprops = connack_sei.map(|v| vec![Prop::u32(17, v)]).unwrap_or_default();
+        let mut cprops = connack_sei.map(|v| vec![Prop::u32(17, v)]).unwrap_or_default();
+        if let Some(r) = o.receive_max {
+            cprops.push(Prop::u16(33, r));
+        }
+        if let Some(m) = o.max_packet {
+            cprops.push(Prop::u32(39, m));
+        }
+        self.r = o.receive_max.map(|x| x as u32).unwrap_or(65535);
+        self.max_packet = o.max_packet;
         self.sim.feed_packet(&SPacket::Connack { session_present: !expect_expired, reason: 0, props: cprops });
         self.sim.settle();
         self.sim.parse_wire();
@@ -927,6 +955,13 @@ impl World {
         for i in want_rels {
             self.viol(&["C17"], "C17/not-resent/PUBREL".into(), format!("op{i}: PUBREL id {:?} without PUBCOMP was not re-sent on the resumed connection", self.m[i].pkt_id));
         }
+        // every unfinished handshake occupies a slot of the new connection's Receive Maximum. When more handshakes were
+        // unfinished than the new Receive Maximum allows, the mandatory re-sending itself exceeds it: nothing is asserted
+        // about the quota on such a connection.
+        self.wire_inflight = self.inflight;
+        if self.inflight > self.r {
+            self.quota_fuzzy = true;
+        }
         true
     }
 
@@ -1033,7 +1068,7 @@ impl World {
                         if self.inflight > self.max_inflight_seen {
                             self.max_inflight_seen = self.inflight;
                         }
-                        if self.wire_inflight > self.r {
+                        if self.wire_inflight > self.r && !self.quota_fuzzy {
                             self.viol(
                                 P_C10,
                                 "C10/receive-maximum-exceeded".into(),
@@ -1296,7 +1331,7 @@ impl World {
                 if kind.is_qos_pub() {
                     // `inflight` already includes this op if it is on the wire
                     let before = self.inflight - on_wire as u32;
-                    if self.m[i].race {
+                    if self.m[i].race || self.quota_fuzzy {
                         if on_wire {
                             self.m[i].accepted = Some(true);
                             self.counters.quota_accepts += 1;
@@ -1646,12 +1681,12 @@ impl World {
             let snaps = poster::verif::drain();
             self.counters.h3_snapshots += snaps.len() as u64;
             for s in &snaps {
-                if s.send_quota as u32 > self.r {
+                if s.send_quota as u32 > self.r && !self.quota_fuzzy {
                     self.viol(P_C10, "C10/h3/send-quota-above-receive-maximum".into(), format!("internal send quota {} exceeds Receive Maximum {}", s.send_quota, self.r));
                     break;
                 }
             }
-            if serving {
+            if serving && !self.quota_fuzzy {
                 if let Some(last) = snaps.last() {
                     if last.send_quota as u32 + self.inflight != self.r {
                         self.viol(
